@@ -120,6 +120,15 @@ def cancel_prog(mw=1):
               sub("e", "ok", 5), ["cancel", "e"], ["cancel", "d"], WAIT, shutdown(True)])
 
 
+def callback_raises_exc(exc, mw=1, on="ok"):
+    """A done-callback raising `exc` (classes outside Exception included), registered on a
+    normal task (run by the manager thread) or on an unsendable one (run by the feeder)."""
+    return P(f"callback-raises-{exc}-on-{on}-w{mw}", pool(max_workers=mw),
+             [NEW, sub("a", on, 1) if on == "ok" else sub("a", on), ["callback", "a", "raise", exc],
+              sub("b", "ok", 2), sub("c", "raise"), WAIT, sub("d", "ok", 4), ["result", "d"],
+              ["probe"], shutdown(True)])
+
+
 def callback_raises(mw=1):
     return P(f"callback-raises-w{mw}", pool(max_workers=mw),
              [NEW, sub("a", "ok", 1), ["callback", "a", "raise"], sub("b", "ok", 2), WAIT,
@@ -241,6 +250,14 @@ def forced(mw=2, reusable=False, queued=3):
         ops += [["shutdown", True, True], ["submit_expect", "z"]]
     return P(f"forced-w{mw}-r{reusable}-q{queued}", pool("reusable" if reusable else "plain", mw),
              ops)
+
+
+def late_initializer_failure(grow_to=3):
+    """The initializer works in the two initial workers and fails in the worker added by a
+    resize: the pool has to be flagged broken by itself (nothing is submitted meanwhile)."""
+    return P(f"late-init-failure-2to{grow_to}", pool("reusable", 2, None, init="fail3"),
+             [NEW, sub("a", "ok", 1), sub("b", "ok", 2), WAIT,
+              ["reuse", dict(max_workers=grow_to)], ["settle"], ["probe"], shutdown(True)])
 
 
 def forced_nowait_prompt(mw=2, queued=1):
